@@ -608,7 +608,7 @@ static void do_open (void)
 
 static void do_close (void)
 {	int h = (int) tokll (1) ; HND *H = &hnd [h] ;
-	if (!H->sf) { ev_begin ("close", h) ; ev_int ("ret", -999) ; ev_end () ; return ; }
+	if (!H->sf) return ;	/* the script closes a handle whose open failed : nothing to do, nothing to report */
 	cur_call = "close" ; cur_h = h ;
 	alarm (alarm_secs) ;
 	int ret = sf_close (H->sf) ;
